@@ -337,6 +337,29 @@ def r4(rep, mod, call, worker):
             okb = False
             detail = "result_queue.get() at line %d: timeout=%s, liveness check with raise=%s" % (g.lineno, has_timeout, alive)
     rep.ob("R4", "the parent's wait for results has a timeout and raises when a worker process has died", okb, call.site(gets[0]) if gets else call.site(), detail, key="failure/bounded-wait")
+    # ... "a worker has died" = some worker is dead: a task held by a dead worker is lost while the
+    # others finish theirs, so waiting until no worker is alive waits forever
+    quant = []
+    for n in ast.walk(call.node):
+        if isinstance(n, ast.If) and any(isinstance(x, ast.Raise) for x in n.body) and any(isinstance(x, ast.Attribute) and x.attr == "is_alive" for x in ast.walk(n.test)):
+            t = n.test
+            neg = False
+            while isinstance(t, ast.UnaryOp) and isinstance(t.op, ast.Not):
+                neg, t = not neg, t.operand
+            if isinstance(t, ast.Call) and isinstance(t.func, ast.Name) and t.func.id in ("all", "any") and t.args and isinstance(t.args[0], (ast.GeneratorExp, ast.ListComp)):
+                elt = t.args[0].elt
+                eneg = False
+                while isinstance(elt, ast.UnaryOp) and isinstance(elt.op, ast.Not):
+                    eneg, elt = not eneg, elt.operand
+                alive_elt = isinstance(elt, ast.Call) and isinstance(elt.func, ast.Attribute) and elt.func.attr == "is_alive"
+                # raises iff some worker is dead:  not all(alive)  or  any(not alive)
+                some_dead = alive_elt and ((t.func.id == "all" and neg and not eneg) or (t.func.id == "any" and not neg and eneg))
+                quant.append((n, some_dead, T(mod, n.test)))
+            else:
+                quant.append((n, None, T(mod, n.test)))
+    okq = bool(quant) and all(q[1] for q in quant)
+    detail = "; ".join(("definite: " if q[1] is False else "unmodelled: ") + "`%s` does not hold as soon as one worker is dead" % q[2][:70] for q in quant if not q[1]) or ""
+    rep.ob("R4", "the wait is given up as soon as any one worker process is dead (its task can never arrive)", okq, call.site(quant[0][0]) if quant else call.site(), detail, key="failure/any-dead")
     # drain: a ParallelMap is re-used for later calls, so every result of this call has to be
     # taken off the shared result queue before the call ends, also when a task failed.  Inside
     # the collection loop the only exit is the liveness handler (the pool is dead anyway).
